@@ -27,6 +27,10 @@ CONSTANTS
 VARIABLE st
 vars == <<st>>
 
+\* the byte-equality pattern of the shards the concretisation must reproduce
+ASSUME PrintT(<<"META", ToJson([total |-> Total, data |-> Data, h |-> H,
+                               shards |-> [c \in Contents |-> Shards(c)]])>>)
+
 S(slot, slice, last, c) == [slot |-> slot, slice |-> slice, isLast |-> last, content |-> c]
 Flip(i, k) == IF Bit(i, k) = 1 THEN i - Pow2(k) ELSE i + Pow2(k)
 OtherC(c) == IF c = "A" THEN "B" ELSE "A"
@@ -114,7 +118,11 @@ Verdict(x) == Receive(x.w, CacheCommit(x.cache), "L")
 AcceptedSlice(x) ==
   IF Verdict(x) = "Ok" /\ \E o \in SignedOf(x.scn) : Commit(o) = CommitmentOf(x.w)
   THEN CHOOSE o \in SignedOf(x.scn) : Commit(o) = CommitmentOf(x.w) ELSE NoSlice
-Expected(x) == [verdict |-> Verdict(x), commit |-> AcceptedSlice(x)]
+\* Shred::verify_path_only against the root of the slice the carried signature speaks about
+PathOk(x) == Decodable(x.w) /\ x.w.sig.over # NoSlice /\ Proven(x.w, RootFn[x.w.sig.over.content])
+CacheRel(x) == IF x.cache = NoSlice THEN "none"
+               ELSE IF Decodable(x.w) /\ Commit(x.cache) = CommitmentOf(x.w) THEN "identical" ELSE "different"
+Expected(x) == [verdict |-> Verdict(x), commit |-> AcceptedSlice(x), pathOk |-> PathOk(x)]
 
 InitCases == st \in Cases
 NextCases == UNCHANGED st
@@ -148,7 +156,7 @@ WOut(w) ==
    proof |-> IF "c" \in DOMAIN w.payload /\ w.proof = PathD(w.payload.c, w.payload.i)
              THEN [path |-> w.payload] ELSE [elems |-> w.proof]]
 EmitCase == PrintT(<<"CASE", ToJson([scn |-> st.scn, i |-> st.i, m |-> st.m, w |-> WOut(st.w),
-                                     cache |-> st.cache, exp |-> Expected(st)])>>)
+                                     cache |-> st.cache, cacheRel |-> CacheRel(st), exp |-> Expected(st)])>>)
 
 \* vacuity witnesses (each must be violated = reachable)
 W_Equivocation == Verdict(st) # "Equivocation"
@@ -214,8 +222,8 @@ Perm(o) == [k \in 1..Total |->
                 [] o = "desc" -> Total - k
                 [] OTHER -> (k * 37 + 5) % Total]
 Without(seq, f) == SelectSeq(seq, LAMBDA x : x # f)
-Hon(sl, idxs) == [k \in 1..Len(idxs) |-> [w |-> HonestShred(sl, idxs[k], "L"), uc |-> TRUE]]
-One(w, uc) == <<[w |-> w, uc |-> uc]>>
+Hon(sl, idxs) == [k \in 1..Len(idxs) |-> [w |-> HonestShred(sl, idxs[k], "L"), uc |-> TRUE, role |-> "honest"]]
+One(w, uc) == <<[w |-> w, uc |-> uc, role |-> "special"]>>
 
 MutantOf(m, sl, f) ==
   LET g == HonestShred(sl, f, "L") IN
@@ -291,7 +299,8 @@ EmitSeq ==
   LET run == Run(st) IN
   PrintT(<<"SEQ", ToJson([name |-> st.name, scn |-> st.scn, m |-> st.m, f |-> st.f, n |-> st.n, order |-> st.order,
                           steps |-> [k \in 1..Len(st.steps) |->
-                                       [w |-> WOut(st.steps[k].w), uc |-> st.steps[k].uc, exp |-> run[k]]]])>>)
+                                       [w |-> WOut(st.steps[k].w), uc |-> st.steps[k].uc, role |-> st.steps[k].role,
+                                        exp |-> run[k]]]])>>)
 
 W_Seq_Dropped == ~(\E k \in 1..Len(Run(st)) : Run(st)[k].ret = "Dropped")
 W_Seq_ShortcutStored == ~(st.m = "sig-bytes" /\ \E k \in 1..Len(st.steps) :
